@@ -25,9 +25,14 @@ def line_can_raise(code, lineno):
         for ins in dis.get_instructions(code):
             if ins.starts_line is not None:
                 cur = ins.starts_line
+            if cur == lineno and ins.opname == "BEFORE_WITH":
+                # the line of a `with` statement is visited a second time for the implicit __exit__(None, None, None)
+                # call, which lies outside the protected range: a tracer-raised exception there skips __exit__, which
+                # no synchronous failure of the program can do.  Not a crash point.
+                r = False
+                break
             if cur == lineno and any(op in ins.opname for op in _RAISING_OPS):
                 r = True
-                break
         _line_can_raise[key] = r
     return r
 
